@@ -335,7 +335,16 @@ fn make_state<'a>(out: &mut Out, h: &Hist, repo: &'a dyn Repo, sizes: Vec<u64>, 
     let pos = observe_positions(out, h, repo.index(), repo.store(), label, expected)?;
     let n = pos.at.len();
     if sizes.iter().sum::<u64>() as usize != n {
-        out.oracle_fail("index:segment-sizes-do-not-add-up", format!("{label}: {sizes:?} vs {n}"));
+        // which indexed commits does the history not know?
+        let heads: Vec<CommitId> = repo.index().all_heads_for_gc().unwrap().collect();
+        let expr = jj_lib::revset::ResolvedExpression::Ancestors { heads: Box::new(jj_lib::revset::ResolvedExpression::Commits(heads)),
+            generation: jj_lib::revset::GENERATION_RANGE_FULL, parents_range: jj_lib::revset::PARENTS_RANGE_FULL };
+        let all = super::c18::eval_ids(repo.index(), repo.store(), &expr).unwrap_or_default();
+        let unknown: Vec<String> = all.iter().filter(|id| !h.by_id.contains_key(*id)).map(|id| {
+            let c = repo.store().get_commit(id).unwrap();
+            format!("{} desc={:?} parents={:?} change={}", id.hex(), c.description(), c.parent_ids().iter().map(|p| h.by_id.get(p)).collect::<Vec<_>>(), c.change_id().hex())
+        }).collect();
+        out.oracle_fail("index:segment-sizes-do-not-add-up", format!("{label}: {sizes:?} vs {n}; unknown indexed commits: {unknown:?}"));
         return None;
     }
     let commit_hex: Vec<String> = pos.at.iter().map(|&i| h.commits[i].id().hex()).collect();
@@ -434,8 +443,10 @@ fn one_history(cfg: &Cfg, out: &mut Out, r: &mut Rng, hist_no: u64) {
             let new = write_commits(r, &mut h, tx.repo_mut(), &mut avail, size, &pool, out);
             after.extend(new.iter().copied());
             // hide some heads (they stay indexed): hidden commits sharing change ids with visible ones
+            // (not in concurrent rounds: hiding a commit that the other operation builds on makes the
+            // merge rebase those descendants, i.e. create commits this harness did not write)
             for &i in &new {
-                if r.chance(1, 5) && tx.repo().view().heads().contains(h.commits[i].id()) && tx.repo().view().heads().len() > 1 {
+                if concurrent == 1 && r.chance(1, 4) && tx.repo().view().heads().contains(h.commits[i].id()) && tx.repo().view().heads().len() > 1 {
                     tx.repo_mut().remove_head(h.commits[i].id());
                     out.tally("hidden-heads", "removed");
                 }
